@@ -195,8 +195,14 @@ def _observe_genes(case):
     def run():
         record = DummyRecord(seq="A" * 90)
         for idx, gene in enumerate(case["genes"]):
-            start, end, strand = gene["loc"]
-            feature = CDSFeature(FeatureLocation(start, end, strand), translation="MA",
+            start, end, strand = gene["loc"][:3]
+            location = FeatureLocation(start, end, strand)
+            if len(gene["loc"]) > 3:
+                from antismash.common.secmet.locations import CompoundLocation  # pylint: disable=import-outside-toplevel
+                middle = start + 6 + 6 * gene["loc"][3]
+                location = CompoundLocation([FeatureLocation(start, start + 6, strand), FeatureLocation(middle, middle + 6, strand),
+                                             FeatureLocation(end - 6, end, strand)])
+            feature = CDSFeature(location, translation="MA",
                                  locus_tag=dec(gene["tag"]) or None, protein_id=dec(gene["pid"]) or None,
                                  gene=dec(gene["gene"]) or None)
             progress["at"] = idx + 1
@@ -329,6 +335,8 @@ GENE_TAGS = ["", "g1", "g:1", "g_1", "g 1", "g2"]
 GENE_PIDS = ["", "p1", "p:1", "g1"]
 GENE_NAMES = ["", "x", "g1"]
 GENE_LOCS = [[0, 9, 1], [3, 12, 1], [3, 12, -1], [30, 39, 1], [30, 36, -1]]
+# splice variants: same start, end and strand, another middle exon (fourth entry: which one)
+SPLICED_LOCS = [[0, 45, 1, 1], [0, 45, 1, 2], [0, 45, 1, 3]]
 
 
 def _gene_universe():
@@ -353,8 +361,12 @@ def _genes_cases(rng, exhaustive_pairs, count):
             for loc_two in (GENE_LOCS[0], GENE_LOCS[1], GENE_LOCS[3]):
                 cases.append({"op": "genes", "genes": [gene(one, GENE_LOCS[0]), gene(two, loc_two)]})
     for _ in range(count):
-        picked = [gene(rng.choice(universe), rng.choice(GENE_LOCS)) for _ in range(rng.choice([2, 3, 3, 4]))]
+        picked = [gene(rng.choice(universe), rng.choice(GENE_LOCS + SPLICED_LOCS)) for _ in range(rng.choice([2, 3, 3, 4]))]
         cases.append({"op": "genes", "genes": picked, "sampled": True})
+    # splice variants of one gene: the same name three or four times, two or three of them with the same extent
+    for ident in [g for g in universe if g[0]][:12]:
+        for first in (GENE_LOCS[0], SPLICED_LOCS[0]):
+            cases.append({"op": "genes", "genes": [gene(ident, first)] + [gene(ident, loc) for loc in SPLICED_LOCS[1:]], "sampled": True})
     return cases
 
 
@@ -366,6 +378,8 @@ def _genes_features(case):
     if any(ch in ILLEGAL for name in names for ch in name):
         feats.append("has_illegal_character")
     locs = [tuple(g["loc"]) for g in case["genes"]]
+    if any(len(loc) > 3 for loc in locs):
+        feats.append("splice_variants")
     if len(set(locs)) < len(locs):
         feats.append("equal_locations")
     return sorted(feats)
